@@ -39,7 +39,7 @@ Record mapping := { m_tok : tok; m_den : denom; m_coin : bool }.
     [transfer(to, x)] debits the sender [x], credits the recipient [x - fee] and the sink [fee],
     where [fee] is clamped into [0, x] (fee-on-transfer: the recipient receives at most [x]).
     [tb_heavy]: transfer needs more than the 200k gas the module grants (always fails there);
-    [tb_false]: transfer returns false and moves nothing; [tb_burn]: has ERC20Burnable.burn;
+    [tb_false]: transfer moves the tokens but returns false (callers that check the flag treat it as failed); [tb_burn]: has ERC20Burnable.burn;
     [tb_pos]: requires a positive amount. *)
 Record tbeh := {
   tb_fee : Z -> Z; tb_sink : acct; tb_heavy : bool; tb_false : bool; tb_burn : bool; tb_pos : bool }.
@@ -261,8 +261,7 @@ Definition exec (s : st) (o : op) : option st :=
       | None => Some s              (* a call to an address without code succeeds and does nothing *)
       | Some b =>
           if tb_heavy b then None
-          else if tb_false b then Some s
-          else erc_transfer s b t caller to x
+          else erc_transfer s b t caller to x   (* a false return value does not fail the user's own tx *)
       end
   | Erc20Burn caller t x =>
       _ <- guard (negb (Nat.eqb caller Module)) ;;
